@@ -63,11 +63,14 @@ pub struct Setup {
     pub drop_after: Option<usize>,
     /// consumer samples size_hint / is_end_stream before each poll (extra lock acquisitions)
     pub sample_hints: bool,
+    /// the explorer may deschedule a thread right after it acquired the mutex (inside its critical
+    /// section); only code that uses try_lock can tell the difference
+    pub cs_preempt: bool,
 }
 
 impl Setup {
     pub fn to_json(&self) -> serde_json::Value {
-        json!({"chunk": self.chunk, "gzip": self.gzip, "program": self.program.iter().map(|o| o.to_json()).collect::<Vec<_>>(), "policy": format!("{:?}", self.policy), "spurious_budget": self.spurious, "fresh_waker_budget": self.env, "drop_body_after_frames": self.drop_after, "sample_hints": self.sample_hints})
+        json!({"chunk": self.chunk, "gzip": self.gzip, "program": self.program.iter().map(|o| o.to_json()).collect::<Vec<_>>(), "policy": format!("{:?}", self.policy), "spurious_budget": self.spurious, "fresh_waker_budget": self.env, "drop_body_after_frames": self.drop_after, "sample_hints": self.sample_hints, "preempt_inside_critical_sections": self.cs_preempt})
     }
     pub fn from_json(v: &serde_json::Value) -> Setup {
         Setup {
@@ -79,6 +82,7 @@ impl Setup {
             env: v["fresh_waker_budget"].as_u64().unwrap() as u32,
             drop_after: v["drop_body_after_frames"].as_u64().map(|x| x as usize),
             sample_hints: v["sample_hints"].as_bool().unwrap_or(false),
+            cs_preempt: v["preempt_inside_critical_sections"].as_bool().unwrap_or(false),
         }
     }
 }
@@ -113,7 +117,7 @@ const HORIZON: usize = 400;
 
 /// One execution under the choice vector `prefix` (then default answer 0 everywhere).
 pub fn run_once(setup: &Setup, prefix: &[usize]) -> Exec {
-    let sched = Sched::new(2, setup.spurious, if setup.policy == WakerPolicy::Choose { setup.env } else { 0 }, prefix, HORIZON + 16 * setup.program.len());
+    let sched = Sched::new_cs(2, setup.spurious, if setup.policy == WakerPolicy::Choose { setup.env } else { 0 }, prefix, HORIZON + 16 * setup.program.len(), setup.cs_preempt);
     let mut rb = http::Request::builder().method("GET").uri("/");
     if setup.gzip {
         rb = rb.header("accept-encoding", "gzip");
@@ -614,7 +618,7 @@ pub fn families(tier: Tier, for_c11: bool) -> Vec<Family> {
     let c = 2usize;
     let alpha_plain = [POp::W(1), POp::W(c), POp::W(c + 1), POp::F, POp::Wait];
     let alpha_abort = [POp::W(1), POp::W(c), POp::F, POp::Wait, POp::A];
-    let mk = |program: Vec<POp>, policy: WakerPolicy, spurious: u32, env: u32, drop_after: Option<usize>, gzip: bool, sample: bool| Setup { chunk: if gzip { 8 } else { c }, gzip, program, policy, spurious, env, drop_after, sample_hints: sample };
+    let mk = |program: Vec<POp>, policy: WakerPolicy, spurious: u32, env: u32, drop_after: Option<usize>, gzip: bool, sample: bool| Setup { chunk: if gzip { 8 } else { c }, gzip, program, policy, spurious, env, drop_after, sample_hints: sample, cs_preempt: false };
     let mut fams = Vec::new();
     if !for_c11 {
         // raw programs, unbounded preemptions, no environment deviations
@@ -672,6 +676,15 @@ pub fn families(tier: Tier, for_c11: bool) -> Vec<Family> {
             };
             fams.push(Family { name: "raw/burst", setups: burst(&[9, 12, 16, 17]).into_iter().map(|p| mk(p, WakerPolicy::Choose, 0, 0, None, false, false)).collect(), bound: Some(tier.pick(2, 3)), cap: 200_000 });
             fams.push(Family { name: "raw/burst-long", setups: burst(&[33, 65, 70]).into_iter().map(|p| mk(p, WakerPolicy::Choose, 0, 0, None, false, false)).collect(), bound: Some(tier.pick(1, 2)), cap: 200_000 });
+        }
+        // preemption INSIDE critical sections (right after the mutex was acquired): invisible to
+        // code that only ever calls lock(), but the only way a try_lock can find the mutex held
+        {
+            let mut setups: Vec<Setup> = programs(&alpha_abort, tier.pick(2, 3)).into_iter().map(|p| mk(p, WakerPolicy::Choose, 1, 1, None, false, false)).collect();
+            for s in setups.iter_mut() {
+                s.cs_preempt = true;
+            }
+            fams.push(Family { name: "raw/preempt-inside-critical-sections", setups, bound: Some(tier.pick(2, 3)), cap: 100_000 });
         }
         // abort programs
         fams.push(Family { name: "raw/abort", setups: programs(&alpha_abort, tier.pick(3, 4)).into_iter().filter(|p| p.contains(&POp::A)).map(|p| mk(p, WakerPolicy::Choose, 1, 1, None, false, false)).collect(), bound: tier.pick(Some(2), None), cap: 200_000 });
@@ -761,7 +774,26 @@ pub fn run_c10(run: &mut Run) -> Stats {
     run.rule = "for every producer program (all sequences up to the stated length over {write(1), write(c), write(c+1), flush, wait-until-delivered} and, in the abort family, abort; chunk size c = 2; the writer is dropped at the end) and the consumer loop (poll; park on Pending; 2 extra polls after the terminal event): every schedule at before-lock / wake / park / wait granularity by depth-first search over choice vectors with iterative preemption bounding, x environment choices (fresh or same waker per poll, spurious re-polls) within the stated budgets; families and their bounds are listed under `families`. Oracle per complete schedule: no deadlock (a consumer parked while no thread can run = lost wake-up), no horizon hit, clean end => delivered == everything accepted (gzip: one valid member), abort => terminal event is the abort error, terminal event within (frames still queued + 2) polls after the writer is gone, no data after the terminal event. Every violation is replayed once and must reproduce identically. non-trivial = distinct (program, consumer observation) pairs".into();
     run.bounds = json!({"chunk": 2, "horizon_steps": HORIZON});
     run.assumptions.push("scheduling points = acquisitions of the one instrumented mutex, wake(), park; safe Rust without atomics in chunker.rs has no other communication (Arc reference counts are not observable through the API)".into());
-    run_families(run, false)
+    let mut total = run_families(run, false);
+    // Sequential half: every single-threaded history (writer operations and polls on one thread)
+    // with the wake-up oracle: a consumer whose last poll returned Pending must find the waker it
+    // presented at that poll woken as soon as a writer operation made data, the end or an abort
+    // error observable. Same waker for every poll, and a different waker at every poll.
+    let tier = run.tier;
+    let mut seq = Stats::new();
+    for fresh in [false, true] {
+        for (c, d, level, accept, sizes) in [
+            (2usize, tier.pick(4usize, 5), 6u32, None, vec![0usize, 1, 2, 3]),
+            (4096, tier.pick(3, 4), 6, None, vec![0, 1, 4096, 5000]),
+            (7, tier.pick(3, 4), 1, Some("gzip".to_string()), vec![0, 1, 300]),
+        ] {
+            let cfg = crate::stream_mc::Config { chunk: c, level, accept, payload: crate::stream_mc::Payload::Rand, fresh_wakers: fresh };
+            seq.merge(crate::stream_mc::sweep(&run.prop, &cfg, crate::stream_mc::alphabet(c, false, true, false, Some(sizes)), d, 2));
+        }
+    }
+    run.extra.insert("sequential_histories_with_wake_oracle".into(), json!(seq.evaluations));
+    total.merge(seq);
+    total
 }
 
 pub fn run_c11_conc(run: &mut Run) -> Stats {
